@@ -4,6 +4,7 @@ import (
 	"fmt"
 	"go/token"
 	"go/types"
+	"sort"
 	"strings"
 
 	"golang.org/x/tools/go/ssa"
@@ -67,6 +68,14 @@ func (x *Exec) loopCut(fr *Frame, st *State, h *ssa.BasicBlock, idx int, edges [
 				continue
 			}
 			x.assume(st, x.evalBool(env, inv.Expr))
+		}
+		if len(spec.HeadEffects) > 0 && fr.depth == 0 {
+			for _, ef := range spec.HeadEffects {
+				henv := x.invEnv(fr, st)
+				x.bindRangeIdx(fr, h, henv)
+				v := x.evalSpec(henv, ef.Expr)
+				st.ghost[ef.Ghost] = x.vc.define("ghost_"+ef.Ghost, x.ghostSort(ef.Ghost), v.term)
+			}
 		}
 		if spec.Decreases != nil && fr.depth == 0 {
 			v := x.evalSpec(env, spec.Decreases.Expr)
@@ -146,8 +155,12 @@ func (x *Exec) hookKeysOfInstr(hc *FuncContract, ins ssa.Instruction, keys map[s
 	case ssa.CallInstruction:
 		c := t.Common()
 		if hc != nil {
-			if _, isGo := ins.(*ssa.Go); isGo {
-				addAll(hc.OnGo)
+			if g, isGo := ins.(*ssa.Go); isGo {
+				for _, ef := range hc.OnGo {
+					if ef.Target == "" || goTargets(g, g.Parent(), ef.Target) {
+						keys["G|"+ef.Ghost] = true
+					}
+				}
 			}
 			m := hc.OnCall
 			if _, isDefer := ins.(*ssa.Defer); isDefer {
@@ -207,13 +220,38 @@ func (x *Exec) havocLoop(fr *Frame, st *State, h *ssa.BasicBlock, body map[*ssa.
 	addStmtGhosts := func() {
 		if c := x.hookContract(fr); c != nil {
 			for _, ef := range c.OnGo {
-				keys["G|"+ef.Ghost] = true
+				if ef.Target == "" {
+					keys["G|"+ef.Ghost] = true
+				}
 			}
 			for _, m := range []map[string][]*EffectSpec{c.OnRecv, c.OnSend} {
 				for _, effs := range m {
 					for _, ef := range effs {
 						keys["G|"+ef.Ghost] = true
 					}
+				}
+			}
+		}
+	}
+	// ghosts assigned where an inner loop is left
+	if c := fr.contract; c != nil && fr.depth == 0 {
+		for i, ih := range loopHeaders(fr.fn) {
+			if ih == h || !body[ih] || c.Loops[i] == nil {
+				continue
+			}
+			for _, l := range c.Loops[i].ExitLets {
+				if l.Ghost {
+					keys["G|"+l.Name] = true
+				}
+			}
+			for _, ef := range c.Loops[i].HeadEffects {
+				keys["G|"+ef.Ghost] = true
+			}
+		}
+		for i, ih := range loopHeaders(fr.fn) {
+			if ih == h && c.Loops[i] != nil {
+				for _, ef := range c.Loops[i].HeadEffects {
+					keys["G|"+ef.Ghost] = true
 				}
 			}
 		}
@@ -242,7 +280,7 @@ func (x *Exec) havocLoop(fr *Frame, st *State, h *ssa.BasicBlock, body map[*ssa.
 				x.unsupp("defer inside a loop in %s", shortFn(fr.fn))
 			case ssa.CallInstruction:
 				if _, isGo := ins.(*ssa.Go); isGo {
-					addStmtGhosts()
+					addStmtGhosts() // untargeted on-go hooks; targeted ones through hookKeysOfInstr below
 				}
 				if c := fr.contract; c != nil && fr.depth == 0 && len(c.OnCall) > 0 {
 					for _, ef := range c.OnCall[calleeShortName(t.Common())] {
@@ -279,7 +317,17 @@ func (x *Exec) havocLoop(fr *Frame, st *State, h *ssa.BasicBlock, body map[*ssa.
 		}
 	}
 	_ = anyCall // ghost effects of (transitive) callees arrive as G| keys through the effect summaries
+	var cellList []*ssa.Alloc
 	for a := range cells {
+		cellList = append(cellList, a)
+	}
+	sort.Slice(cellList, func(i, j int) bool {
+		if cellList[i].Pos() != cellList[j].Pos() {
+			return cellList[i].Pos() < cellList[j].Pos()
+		}
+		return cellList[i].Name() < cellList[j].Name()
+	})
+	for _, a := range cellList {
 		et := deref(a.Type())
 		st.cells[a] = x.freshOfType(st, "hv_"+a.Comment, et)
 	}
@@ -287,7 +335,7 @@ func (x *Exec) havocLoop(fr *Frame, st *State, h *ssa.BasicBlock, body map[*ssa.
 	// another function (this loop belongs to an inlined callee that is not one of its closures),
 	// and owned fields that the loop does not store to directly
 	before := map[string]string{}
-	for k := range keys {
+	for _, k := range sortedKeys(keys) {
 		if srt, ok := x.vc.memSorts[k]; ok {
 			before[k] = x.memGet(st, k, srt)
 		}
